@@ -464,6 +464,7 @@ NOISE_OVERRIDE = None      # C15: force the set of additional traits (None = use
 def finalize_attrs(rng, td, noise=()):
     """Compose each position's metas into #[educe(...)] attributes: one list or several stacked
     attributes, other educed traits' attributes before/after, plain attributes interleaved."""
+    srng = random.Random(rng.random())             # type spellings: independent of the noise traits chosen below
     if NOISE_OVERRIDE is not None:
         present = set(re.findall(r"(?:^|,)\s*([A-Z][A-Za-z]*)", ",".join(re.sub(r"\([^()]*(?:\([^()]*\)[^()]*)*\)", "", t) for t in td.traits)))
         noise = [t for t in NOISE_OVERRIDE if t not in present and not (t in ("PartialEq", "Hash") and td.kind == "union")]
@@ -479,10 +480,10 @@ def finalize_attrs(rng, td, noise=()):
     for v in td.variants:
         for f in v.fields:
             # the same type written differently (parenthesised, by path): irrelevant to what the impls do
-            if getattr(td, "type_spelling", False) and not hasattr(f, "ty_src") and re.match(r"^[A-Za-z0-9]+$", f.ty) and rng.random() < 0.12:
+            if getattr(td, "type_spelling", False) and not hasattr(f, "ty_src") and re.match(r"^[A-Za-z0-9]+$", f.ty) and srng.random() < 0.12:
                 prim = f.ty in ("bool", "char", "u8", "u16", "u32", "u64", "i8", "i16", "i32", "i64", "usize", "isize", "f32", "f64")
-                f.ty_src = rng.choice(["(%s)" % f.ty, ("::core::primitive::%s" if prim else "super::prelude::%s") % f.ty,
-                                       ("::core::primitive::%s" if prim else "self::%s") % f.ty, "((%s))" % f.ty])
+                f.ty_src = srng.choice(["(%s)" % f.ty, ("::core::primitive::%s" if prim else "super::prelude::%s") % f.ty,
+                                        ("::core::primitive::%s" if prim else "self::%s") % f.ty])
             metas = list(getattr(f, "metas", []))
             for t in noise:
                 m = noise_field_meta(rng, t, f, v.shape)
